@@ -123,12 +123,17 @@ CLAIMS["C11"] = dict(
    text="Coq theorems (Props/C11.v) over the runtime model, for every module: NAME matches a token iff kind NAME and text not "
         "in KEYWORDS; SOFT_KEYWORD iff kind NAME and text in SOFT_KEYWORDS; a quoted literal that is not also a token-kind "
         "name matches iff the texts are equal; keyword tables are sorted sets of what was collected; the kind/literal "
-        "conflation of expect() is REFUTED by computed witnesses (two recorded findings). Tie: K-gen/K-run; on the "
-        "implementation: hard/soft keywords hidden at 15 syntactic positions (also with both quote styles) must appear in the "
-        "tables and NAME/SOFT_KEYWORD must accept/reject accordingly.",
-   design="6/C11", technique="Coq theorems on the primitive tests + refutation witnesses + positional keyword sweep with K-run correspondence",
-   note="Partial: that the generator collects EVERY literal at every position (work-list completeness) is validated by the "
-        "positional sweep and K-gen, not yet proved.")
+        "conflation of expect() is REFUTED by computed witnesses (two recorded findings); "
+        "C11_keyword_tables_are_exactly_the_quoted_words: for every grammar the tables hard_keywords/soft_keywords of a plain "
+        "traversal contain exactly the quoted identifier-like literals occurring at any depth of any rule (declarative "
+        "occurrence relation), and every run checks in Coq that the tables the REAL generator emitted equal them on each "
+        "explored grammar. Tie: K-gen/K-run; on the implementation: hard/soft keywords hidden at 15 syntactic positions (also "
+        "with both quote styles, non-ASCII letters, names of the token module, a second generation from the same grammar "
+        "object) must appear in the tables and NAME/SOFT_KEYWORD must accept/reject accordingly.",
+   design="6/C11", technique="Coq theorems on the primitive tests and on the keyword traversal + refutation witnesses + per-grammar table validation + positional keyword sweep with K-run correspondence",
+   note="Partial: that the GENERATOR collects every literal (its work-list over helper rules) is not proved for all grammars; "
+        "its output is validated against the proved-complete traversal on every explored grammar. The model's identifier test "
+        "is ASCII (non-ASCII keywords are covered on the implementation only).")
 CLAIMS["C12"] = dict(
    text="Coq theorems (Props/C12.v): (1) for every module, input, configuration, fuel and state, every invocation that returns "
         "leaves call_invalid_rules as it found it (without_invalid methods clear it for their body and restore it on match, "
